@@ -66,21 +66,21 @@ type c06Fault struct {
 }
 
 type c06MsgSpec struct {
-	NLRI       []int     `json:"nlri"`
-	Withdraw   []int     `json:"withdraw"`
-	V6         []int     `json:"v6"`
-	V6Withdraw []int     `json:"v6_withdraw"`
-	Opt        uint32    `json:"opt"` // bit per optional attribute
-	Variant    int       `json:"variant"`
+	NLRI       []int      `json:"nlri"`
+	Withdraw   []int      `json:"withdraw"`
+	V6         []int      `json:"v6"`
+	V6Withdraw []int      `json:"v6_withdraw"`
+	Opt        uint32     `json:"opt"` // bit per optional attribute
+	Variant    int        `json:"variant"`
 	Faults     []c06Fault `json:"faults"`
 }
 
 type c06Case struct {
-	Kind int          `json:"kind"` // rsEBGP, rsIBGP, rsConfed
-	TAW  bool         `json:"treat_as_withdraw"`
-	AS2  bool         `json:"as2"` // the tested peer has no 4-octet-AS capability: AS_PATH and AGGREGATOR carry 2-octet AS numbers
-	AddPath bool      `json:"add_path"` // ADD-PATH from the tested peer: every NLRI it names carries a path identifier
-	Msgs []c06MsgSpec `json:"msgs"`
+	Kind    int          `json:"kind"` // rsEBGP, rsIBGP, rsConfed
+	TAW     bool         `json:"treat_as_withdraw"`
+	AS2     bool         `json:"as2"`      // the tested peer has no 4-octet-AS capability: AS_PATH and AGGREGATOR carry 2-octet AS numbers
+	AddPath bool         `json:"add_path"` // ADD-PATH from the tested peer: every NLRI it names carries a path identifier
+	Msgs    []c06MsgSpec `json:"msgs"`
 }
 
 const c06Pool = 5
@@ -352,10 +352,10 @@ func c06Base(kind int, as2 bool, m c06MsgSpec) []c06TLV {
 
 type c06Built struct {
 	raw      []byte
-	class    int          // strongest reaction called for with revised error handling
+	class    int           // strongest reaction called for with revised error handling
 	subs     map[byte]bool // NOTIFICATION subcodes acceptable if the session is reset
-	missing  []byte       // when non-nil, "missing well-known" data acceptable
-	attrs    []c06TLV     // as sent
+	missing  []byte        // when non-nil, "missing well-known" data acceptable
+	attrs    []c06TLV      // as sent
 	applied  []string
 	skipped  int
 	named4   []netip.Prefix // every IPv4 prefix the message names (NLRI + withdrawn)
